@@ -583,6 +583,23 @@ pub fn frame(payload: &[u8], framing: &Framing, id: u32, goldsrc: bool, no_size_
             points.sort();
             let max_frags = if goldsrc { 15 } else { 255 };
             points.truncate(max_frags - 1);
+            // every datagram must fit the client's 6144-byte receive size (the body may be the compressed form)
+            const LIMIT: usize = 6144 - 32;
+            let too_big = {
+                let mut prev = 0;
+                let mut big = false;
+                for p in points.iter().chain(std::iter::once(&body.len())) {
+                    if p - prev > LIMIT {
+                        big = true;
+                    }
+                    prev = *p;
+                }
+                big
+            };
+            if too_big {
+                let n = (body.len() / LIMIT + 1).max(points.len() + 1).min(max_frags);
+                points = (1 .. n).map(|k| k * body.len() / n).collect();
+            }
             let mut frags: Vec<&[u8]> = Vec::new();
             let mut prev = 0;
             for p in points {
